@@ -396,7 +396,7 @@ class C09:
         hist = []
         live = {f[0]: f[1] for f in files}
         metas = []          # (out, version)
-        nsteps = rng.randint(6, 15)
+        nsteps = rng.randint(6, 15) if tier == "quick" else rng.choice([8, 12, 15, 25, 40])
         big = rng.random() < (0.15 if tier == "thorough" else 0.06)
         fresh_id = [0]
 
